@@ -217,3 +217,188 @@ Proof.
   - apply bind_done_eta.
   - rewrite (sub_length_I dbg w high (ONE n) h1); [exact Hh| rewrite ONE_length; exact Hh | exact E].
 Qed.
+
+(* ---------- sample_single_inclusive / sample_single ---------- *)
+
+Lemma rand_single_zone dbg w n range : length range = n ->
+  (if Bits.bits_of w (UMAX w n) <=? 16 then
+     (t2 <- of_outcome (AddSub.U_sub dbg w (UMAX w n) range) ;;
+      t3 <- of_outcome (U_add_digit w t2 1) ;;
+      t4 <- of_outcome (Div.U_rem w t3 range) ;;
+      t5 <- of_outcome (AddSub.U_sub dbg w (UMAX w n) t4) ;; Done t5)
+   else
+     (t6 <- of_outcome (Shift.U_shl dbg w range (Bits.leading_zeros w range)) ;;
+      Done (AddSub.U_wrapping_sub w t6 (ONE n))))
+  = of_outcome (single_zone dbg w range).
+Proof.
+  intros Hr. unfold single_zone. rewrite Hr.
+  destruct (Bits.bits_of w (UMAX w n) <=? 16).
+  - pose proof (rand_ints_to_reject dbg w range) as E. rewrite Hr in E.
+    rewrite of_outcome_obind, <- E.
+    destruct (AddSub.U_sub dbg w (UMAX w n) range) as [t2|]; [|reflexivity]. cbn [of_outcome bind].
+    destruct (U_add_digit w t2 1) as [t3|]; [|reflexivity]. cbn [of_outcome bind].
+    destruct (Div.U_rem w t3 range) as [t4|]; [|reflexivity]. cbn [of_outcome bind].
+    destruct (AddSub.U_sub dbg w (UMAX w n) t4); reflexivity.
+  - destruct (Shift.U_shl dbg w range (Bits.leading_zeros w range)); reflexivity.
+Qed.
+
+Lemma rand_sample_single_inclusive_gen sg dbg w n fuel low high s : length low = n -> length high = n ->
+  (if ty_le sg w low high then
+     let range := range_of sg w low high in
+     if is_zero range then
+       draw t1 rng <- of_rres (ty_standard sg w n s) ;; Done (Some (t1, rng))
+     else
+       t7 <- (if Bits.bits_of w (UMAX w n) <=? 16 then
+                (t2 <- of_outcome (AddSub.U_sub dbg w (UMAX w n) range) ;;
+                 t3 <- of_outcome (U_add_digit w t2 1) ;;
+                 t4 <- of_outcome (Div.U_rem w t3 range) ;;
+                 let ints_to_reject := t4 in
+                 t5 <- of_outcome (AddSub.U_sub dbg w (UMAX w n) ints_to_reject) ;; Done t5)
+              else
+                (t6 <- of_outcome (Shift.U_shl dbg w range (Bits.leading_zeros w range)) ;;
+                 Done (AddSub.U_wrapping_sub w t6 (ONE n)))) ;;
+       let zone := t7 in
+       t9 <- while_loop (R := drawn (list Z)) fuel (fun _ : stream => true)
+               (fun rng =>
+                  draw_in_loop t8 rng <- of_rres (Random.U_standard w n rng) ;;
+                  let v := t8 in
+                  let '(lo, hi) := Mul.U_widening_mul w v range in
+                  if cmp_le (ucmp lo zone) then Done (Return (Some (ty_wrapping_add sg w low hi, rng)))
+                  else Done (Continue rng)) s ;;
+       match t9 with
+       | Exited _ => Panicked
+       | Returned t10 => Done t10
+       end
+   else Panicked)
+  = of_rres (sample_single_inclusive fuel sg dbg w low high s).
+Proof.
+  intros Hl Hh. unfold sample_single_inclusive.
+  destruct (ty_le sg w low high); [|reflexivity]. cbn [negb]. cbv zeta.
+  assert (Hr : length (range_of sg w low high) = n) by (rewrite range_of_length; congruence).
+  set (range := range_of sg w low high) in *. clearbody range.
+  destruct (is_zero range).
+  - rewrite rbind_ret, Hl. reflexivity.
+  - rewrite (rand_single_zone dbg w n range Hr).
+    destruct (single_zone dbg w range) as [zone|]; [|reflexivity]. cbn [of_outcome bind].
+    rewrite (rand_sample_loop sg w n low range zone Hl). apply rand_after_loop.
+Qed.
+
+Lemma rand_U_sample_single_inclusive dbg w n fuel low high s : length low = n -> length high = n ->
+  RandGen.U_sample_single_inclusive dbg w (Z.of_nat n) fuel low high s
+  = of_rres (U_sample_single_inclusive fuel dbg w low high s).
+Proof.
+  intros Hl Hh. unfold RandGen.U_sample_single_inclusive, U_sample_single_inclusive. rewrite Nat2Z.id.
+  rewrite <- (rand_sample_single_inclusive_gen false dbg w n fuel low high s Hl Hh).
+  unfold ty_le, ty_standard, range_of, ty_wrapping_add, ty_wrapping_sub. rewrite Hl. reflexivity.
+Qed.
+
+Lemma rand_I_sample_single_inclusive dbg w n fuel low high s : length low = n -> length high = n ->
+  RandGen.I_sample_single_inclusive dbg w (Z.of_nat n) fuel low high s
+  = of_rres (I_sample_single_inclusive fuel dbg w low high s).
+Proof.
+  intros Hl Hh. unfold RandGen.I_sample_single_inclusive, I_sample_single_inclusive. rewrite Nat2Z.id.
+  rewrite <- (rand_sample_single_inclusive_gen true dbg w n fuel low high s Hl Hh).
+  unfold ty_le, ty_standard, range_of, ty_wrapping_add, ty_wrapping_sub, Cast.to_bits, Cast.from_bits. rewrite Hl. reflexivity.
+Qed.
+
+Lemma rbind_of_rres_ret {A} (r : rres A) : rbind (of_rres r) (fun a s => Done (Some (a, s))) = of_rres r.
+Proof. apply rbind_ret. Qed.
+
+Lemma rand_U_sample_single dbg w n fuel low high s : length low = n -> length high = n ->
+  RandGen.U_sample_single dbg w (Z.of_nat n) fuel low high s = of_rres (U_sample_single fuel dbg w low high s).
+Proof.
+  intros Hl Hh. unfold RandGen.U_sample_single, U_sample_single, sample_single, ty_lt, ty_sub. rewrite Nat2Z.id, Hl.
+  destruct (cmp_lt (ucmp low high)); [|reflexivity]. cbn [negb].
+  destruct (AddSub.U_sub dbg w high (ONE n)) as [h1|] eqn:E; [|reflexivity]. cbn [of_outcome bind].
+  rewrite (rand_U_sample_single_inclusive dbg w n fuel low h1 s Hl).
+  - apply rbind_ret.
+  - rewrite (sub_length_U dbg w high (ONE n) h1); [exact Hh| rewrite ONE_length; exact Hh | exact E].
+Qed.
+
+Lemma rand_I_sample_single dbg w n fuel low high s : length low = n -> length high = n ->
+  RandGen.I_sample_single dbg w (Z.of_nat n) fuel low high s = of_rres (I_sample_single fuel dbg w low high s).
+Proof.
+  intros Hl Hh. unfold RandGen.I_sample_single, I_sample_single, sample_single, ty_lt, ty_sub, Cast.from_bits. rewrite Nat2Z.id, Hl.
+  destruct (cmp_lt (icmp w low high)); [|reflexivity]. cbn [negb].
+  destruct (AddSub.I_sub dbg w high (ONE n)) as [h1|] eqn:E; [|reflexivity]. cbn [of_outcome bind].
+  rewrite (rand_I_sample_single_inclusive dbg w n fuel low h1 s Hl).
+  - apply rbind_ret.
+  - rewrite (sub_length_I dbg w high (ONE n) h1); [exact Hh| rewrite ONE_length; exact Hh | exact E].
+Qed.
+
+(* ---------- UniformInt::sample ---------- *)
+
+Lemma rand_uniform_sample_gen sg dbg w n fuel u s : length (u_low u) = n -> length (u_range u) = n ->
+  (let range := u_range u in
+   if negb (is_zero range) then
+     t1 <- of_outcome (AddSub.U_sub dbg w (UMAX w n) (u_z u)) ;;
+     let zone := t1 in
+     t3 <- while_loop (R := drawn (list Z)) fuel (fun _ : stream => true)
+             (fun rng =>
+                draw_in_loop t2 rng <- of_rres (Random.U_standard w n rng) ;;
+                let v := t2 in
+                let '(lo, hi) := Mul.U_widening_mul w v range in
+                if cmp_le (ucmp lo zone) then Done (Return (Some (ty_wrapping_add sg w (u_low u) hi, rng)))
+                else Done (Continue rng)) s ;;
+     match t3 with
+     | Exited _ => Panicked
+     | Returned t4 => Done t4
+     end
+   else
+     draw t5 rng <- of_rres (ty_standard sg w n s) ;; Done (Some (t5, rng)))
+  = of_rres (uniform_sample fuel sg dbg w u s).
+Proof.
+  intros Hl Hr. unfold uniform_sample. cbv zeta. rewrite Hr, Hl.
+  destruct (negb (is_zero (u_range u))).
+  - destruct (AddSub.U_sub dbg w (UMAX w n) (u_z u)) as [zone|]; [|reflexivity]. cbn [of_outcome bind].
+    rewrite (rand_sample_loop sg w n (u_low u) (u_range u) zone Hl). apply rand_after_loop.
+  - apply rbind_ret.
+Qed.
+
+Lemma rand_U_uniform_sample dbg w n fuel u s : length (u_low u) = n -> length (u_range u) = n ->
+  RandGen.U_uniform_sample dbg w (Z.of_nat n) fuel u s = of_rres (uniform_sample fuel false dbg w u s).
+Proof.
+  intros Hl Hr. unfold RandGen.U_uniform_sample. rewrite Nat2Z.id.
+  rewrite <- (rand_uniform_sample_gen false dbg w n fuel u s Hl Hr). reflexivity.
+Qed.
+
+Lemma rand_I_uniform_sample dbg w n fuel u s : length (u_low u) = n -> length (u_range u) = n ->
+  RandGen.I_uniform_sample dbg w (Z.of_nat n) fuel u s = of_rres (uniform_sample fuel true dbg w u s).
+Proof.
+  intros Hl Hr. unfold RandGen.I_uniform_sample. rewrite Nat2Z.id.
+  rewrite <- (rand_uniform_sample_gen true dbg w n fuel u s Hl Hr). reflexivity.
+Qed.
+
+(* ---------- all of it ---------- *)
+
+Theorem rand_C20_match_model : forall (dbg : bool) (w : Z) (n fuel : nat) (low high : list Z) (u : uniform) (s : stream),
+  length low = n -> length high = n -> length (u_low u) = n -> length (u_range u) = n ->
+  let N := Z.of_nat n in
+  RandGen.U_standard w N fuel s = of_rres (U_standard w n s) /\
+  RandGen.I_standard w N fuel s = of_rres (I_standard w n s) /\
+  RandGen.U_uniform_new_inclusive dbg w N fuel low high = of_outcome (U_uniform_new_inclusive dbg w low high) /\
+  RandGen.I_uniform_new_inclusive dbg w N fuel low high = of_outcome (I_uniform_new_inclusive dbg w low high) /\
+  RandGen.U_uniform_new dbg w N fuel low high = of_outcome (U_uniform_new dbg w low high) /\
+  RandGen.I_uniform_new dbg w N fuel low high = of_outcome (I_uniform_new dbg w low high) /\
+  RandGen.U_uniform_sample dbg w N fuel u s = of_rres (uniform_sample fuel false dbg w u s) /\
+  RandGen.I_uniform_sample dbg w N fuel u s = of_rres (uniform_sample fuel true dbg w u s) /\
+  RandGen.U_sample_single_inclusive dbg w N fuel low high s = of_rres (U_sample_single_inclusive fuel dbg w low high s) /\
+  RandGen.I_sample_single_inclusive dbg w N fuel low high s = of_rres (I_sample_single_inclusive fuel dbg w low high s) /\
+  RandGen.U_sample_single dbg w N fuel low high s = of_rres (U_sample_single fuel dbg w low high s) /\
+  RandGen.I_sample_single dbg w N fuel low high s = of_rres (I_sample_single fuel dbg w low high s).
+Proof.
+  intros dbg w n fuel low high u s Hl Hh Hul Hur N. subst N.
+  repeat split.
+  - apply rand_U_standard.
+  - apply rand_I_standard.
+  - apply rand_U_uniform_new_inclusive; assumption.
+  - apply rand_I_uniform_new_inclusive; assumption.
+  - apply rand_U_uniform_new; assumption.
+  - apply rand_I_uniform_new; assumption.
+  - apply rand_U_uniform_sample; assumption.
+  - apply rand_I_uniform_sample; assumption.
+  - apply rand_U_sample_single_inclusive; assumption.
+  - apply rand_I_sample_single_inclusive; assumption.
+  - apply rand_U_sample_single; assumption.
+  - apply rand_I_sample_single; assumption.
+Qed.
